@@ -430,26 +430,24 @@ def gen_short_motion(r, wall):
 
 
 def gen_dubins_directed(r):
-    """asymmetric Dubins with a turning radius comparable to the obstacles and many small boxes: narrow passages around
-    which the curve b -> a is free while a -> b collides (and vice versa)."""
+    """asymmetric Dubins, small turning radius (0.03-0.07 in the unit square) and 15-25 small boxes: many narrow passages
+    around which the curve b -> a is free while a -> b collides (and vice versa).  Tuned against a BiTRRT variant that
+    validates goal-tree motions in the wrong direction: about 16 % of such runs then report an edge that fails in the
+    direction of travel (200-run trials; larger radii or fewer boxes gave 0-10 %)."""
     lo, hi = [0.0, 0.0], [1.0, 1.0]
+    p = Problem("dubins", lo, hi, 2, [], r.choice([0.005, 0.01]), [], [], 0.0, "RRTConnect", 0, 0, 0,
+                rho=r.uniform(0.03, 0.07), tag="dubins-directed")
+    p.starts = [rand_state(r, "dubins", [0.05, 0.05], [0.95, 0.95])]
+    p.goal = rand_state(r, "dubins", [0.05, 0.05], [0.95, 0.95])
     boxes = []
-    for _ in range(r.range(7, 13)):
+    for _ in range(r.range(15, 25)):
         c = [r.uniform(0.05, 0.95), r.uniform(0.05, 0.95)]
-        h = [r.uniform(0.02, 0.09), r.uniform(0.02, 0.09)]
-        boxes.append(([c[0] - h[0], c[1] - h[1]], [c[0] + h[0], c[1] + h[1]]))
-    p = Problem("dubins", lo, hi, 2, boxes, r.choice([0.005, 0.01]), [], [], 0.0, "RRTConnect", 0, 0, 0,
-                rho=r.uniform(0.06, 0.16), tag="dubins-directed")
-
-    def pick():
-        for _ in range(300):
-            s = rand_state(r, "dubins", lo, hi)
-            if p.valid(s):
-                return s
-        p.boxes = []
-        return rand_state(r, "dubins", lo, hi)
-    p.starts = [pick()]
-    p.goal = pick()
+        h = [r.uniform(0.015, 0.05), r.uniform(0.015, 0.05)]
+        b = ([c[0] - h[0], c[1] - h[1]], [c[0] + h[0], c[1] + h[1]])
+        q = p.clone(boxes=[b])
+        if not q.collides(p.starts[0]) and not q.collides(p.goal):
+            boxes.append(b)
+    p.boxes = boxes
     p.thr = 0.05 * extent(p)
     return p
 
@@ -1129,7 +1127,7 @@ def plan_quick(ck, names):
             jobs.append(sm.clone(planner=name, seed=r.below(1000), budget=SHORT_BUDGET.get(name, 30000),
                                  pollcap=pollcap_for(name, SHORT_BUDGET.get(name, 30000))))
         if name in DIRECTION_AWARE:
-            for k in range(24):
+            for k in range(60 if name == "BiTRRT" else 30):
                 dd = gen_dubins_directed(r)
                 jobs.append(dd.clone(planner=name, seed=r.below(100000), budget=8000, pollcap=pollcap_for(name, 8000)))
         for a in range(3):
